@@ -163,6 +163,47 @@ pub fn run_scripted(desc: &str, req: &Req, state: Scripted) -> Run {
 
 /// Run one stage on a real state.  Returns the run and the resulting state (as JSON) so that
 /// stages can be chained.
+/// `run_real` with every score compared with the score of a fresh copy of the state (written to
+/// JSON and read back): the score is a function of the state as it is, not of its history.
+pub fn run_real_fresh<S>(
+    desc: &str,
+    req: &Req,
+    state: S,
+    family: &'static str,
+    chained: bool,
+) -> (Run, Option<S>)
+where
+    S: State + serde::de::DeserializeOwned + 'static,
+{
+    FRESH_WANTED.with(|f| *f.borrow_mut() = true);
+    let keep: std::rc::Rc<std::cell::RefCell<Option<std::sync::Arc<S>>>> = std::rc::Rc::new(std::cell::RefCell::new(None));
+    let k2 = keep.clone();
+    FRESH_HOOK.with(|h| {
+        *h.borrow_mut() = Some(Box::new(move |any: &dyn std::any::Any| {
+            if let Some(arc) = any.downcast_ref::<std::sync::Arc<S>>() {
+                *k2.borrow_mut() = Some(arc.clone());
+            }
+        }))
+    });
+    let k3 = keep.clone();
+    obs::set_fresh(Some(Box::new(move || {
+        let arc = k3.borrow().clone()?;
+        let text = serde_json::to_string(&*arc).ok()?;
+        let copy: S = serde_json::from_str(&text).ok()?;
+        Some(copy.score())
+    })));
+    let r = run_real(desc, req, state, family, chained);
+    obs::set_fresh(None);
+    FRESH_WANTED.with(|f| *f.borrow_mut() = false);
+    FRESH_HOOK.with(|h| *h.borrow_mut() = None);
+    r
+}
+
+thread_local! {
+    static FRESH_WANTED: std::cell::RefCell<bool> = std::cell::RefCell::new(false);
+    static FRESH_HOOK: std::cell::RefCell<Option<Box<dyn Fn(&dyn std::any::Any)>>> = std::cell::RefCell::new(None);
+}
+
 pub fn run_real<S>(
     desc: &str,
     req: &Req,
@@ -184,6 +225,13 @@ where
         None,
     );
     let keep = rec.inner.clone();
+    if FRESH_WANTED.with(|f| *f.borrow()) {
+        FRESH_HOOK.with(|h| {
+            if let Some(f) = h.borrow().as_ref() {
+                f(&keep as &dyn std::any::Any)
+            }
+        });
+    }
     let res = catch_unwind(AssertUnwindSafe(|| {
         let opt = req.builder().build();
         let out = opt.optimise_state(rec);
@@ -493,7 +541,7 @@ pub fn project(runs: &[Run]) -> (Vec<String>, Vec<i64>, FileStats) {
                             st.undefined += 1;
                         }
                         lines.push(
-                            json!({"ev": "eval", "val": p.toks(vec), "score": p.rank(*s), "out": outside(vec, &run.bounds)})
+                            json!({"ev": "eval", "val": p.toks(vec), "score": p.rank(*s), "out": outside(vec, &run.bounds), "fresh": true})
                                 .to_string(),
                         );
                     } else if returned {
@@ -503,6 +551,14 @@ pub fn project(runs: &[Run]) -> (Vec<String>, Vec<i64>, FileStats) {
                             json!({"ev": "final", "val": p.toks(vec), "score": p.rank(*s), "out": outside(vec, &run.bounds)})
                                 .to_string(),
                         );
+                    }
+                }
+                Raw::Stale(..) => {
+                    // belongs to the score() call recorded just before it
+                    if let Some(last) = lines.last_mut() {
+                        if last.contains("\"ev\":\"eval\"") {
+                            *last = last.replace("\"fresh\":true", "\"fresh\":false");
+                        }
                     }
                 }
                 Raw::Hook(ev, vec) => match ev {
@@ -602,7 +658,7 @@ pub fn project(runs: &[Run]) -> (Vec<String>, Vec<i64>, FileStats) {
                             have_eval = true;
                             lines.push(
                                 json!({"ev": "eval", "val": p.toks(&prop_vec), "score": p.rank(Some(held)),
-                                       "out": outside(&prop_vec, &run.bounds)})
+                                       "out": outside(&prop_vec, &run.bounds), "fresh": true})
                                 .to_string(),
                             );
                         }
